@@ -1,0 +1,33 @@
+//go:build verif
+
+package internal
+
+import "time"
+
+// verifTimerHook lets a verification harness observe or virtualise timer arming.
+type verifTimerHook struct {
+	onReset func(time.Duration)
+	virtual bool
+}
+
+func (h *verifTimerHook) verifReset(d time.Duration) bool {
+	if h.onReset != nil {
+		h.onReset(d)
+	}
+	return h.virtual
+}
+
+// NewVerifEventTimer returns a timer that never runs: Reset only reports the duration.
+func NewVerifEventTimer(onReset func(time.Duration)) *EventTimer {
+	t := &EventTimer{done: make(chan struct{})}
+	t.onReset = onReset
+	t.virtual = true
+	return t
+}
+
+// VerifObserve reports each arming of a real timer.
+func (t *EventTimer) VerifObserve(onReset func(time.Duration)) {
+	if t != nil {
+		t.onReset = onReset
+	}
+}
